@@ -456,5 +456,5 @@ Definition run (c : tr) : tr :=
       end
   | L [I 27; I 0; d; s] =>
       match d_pv FUEL d, d_pv FUEL s with Some x, Some y => e_res (merge_plain x y) | _, _ => ebad end
-  | _ => KeyPath.run c
+  | _ => run_kp c
   end.
